@@ -30,9 +30,9 @@ REGISTRY.update({
         "note": _NOTE + "Hash seeds 0..15 only. A defect that needs > 30 points is only reachable through C07's differential clause.",
     },
     "C02": {
-        "level": "Same design as C01 with Euclidean / (d-b)/sqrt2 costs: brute-force minimum over all partial matchings (<= 5 points), LP reference (HiGHS) up to "
+        "level": "Same design as C01 with Euclidean / (d-b)/sqrt2 costs: brute-force minimum over all partial matchings (<= 5 points), independent assignment reference (own Kuhn-Munkres on the reduced-gain matrix) up to "
                  "25 points self-checked against the brute force, exhaustive 23409-pair lattice slice, infinite-death handling with warning attribution.",
-        "technique": "property-based testing (Hypothesis) against brute-force definition + LP differential reference; exhaustive enumeration of a small lattice slice",
+        "technique": "property-based testing (Hypothesis) against brute-force definition + independent-assignment differential reference; exhaustive enumeration of a small lattice slice",
         "note": _NOTE + "Comparison tolerance 1e-9 * sum |coordinates|.",
     },
     "C06": {
@@ -45,7 +45,7 @@ REGISTRY.update({
     "C07": {
         "level": "Metamorphic laws (zero on reorderings, symmetry, non-negativity, triangle inequality, diagonal-point / translation / scaling invariance, "
                  "closed forms against the empty diagram, d_B <= d_W) on diagrams of up to 60 (quick) / 200 (thorough) points, plus a differential value "
-                 "oracle (independent bottleneck reference, LP Wasserstein) at sizes brute force cannot reach. Exploration: the laws quantify over all "
+                 "oracle (independent bottleneck reference, independent Wasserstein reference) at sizes brute force cannot reach. Exploration: the laws quantify over all "
                  "triples; no finite slice is complete.",
         "technique": "property-based testing (Hypothesis): metamorphic relations + differential reference at size",
         "note": _NOTE + "Sizes bounded by the cost of persim's pure-Python bottleneck.",
@@ -57,15 +57,15 @@ REGISTRY.update({
         "level": "Generated pairs/triples (0..10 points, sigma commensurate with the data over 7 decades) are compared with a float64 transcription of the "
                  "kernel formula on squared distances, with dedicated generators for the delicate cases the statement names (reordered copies, copies "
                  "perturbed by 1e-3..1e-15) and exact-arithmetic generators for diagonal-point and translation invariance; the Wasserstein stability bound "
-                 "is checked against an LP reference and against persim.wasserstein. Exploration: all clauses quantify over real-valued inputs.",
-        "technique": "property-based testing (Hypothesis): formula oracle on squares + metamorphic relations + stability inequality against an LP reference",
+                 "is checked against an independent assignment reference and against persim.wasserstein. Exploration: all clauses quantify over real-valued inputs.",
+        "technique": "property-based testing (Hypothesis): formula oracle on squares + metamorphic relations + stability inequality against an independent assignment reference",
         "note": _NOTE + "Sizes <= 10 points because the implementation is an O(mn) Python loop.",
     },
     "C15": {
         "level": "Generated pairs/triples with coordinates of either sign are compared with a float64 transcription of the averaged 1-D transport cost "
                  "(tolerance set by the implementation's float32 directions), plus symmetry, zero on reorderings, triangle inequality, diagonal points, "
-                 "diagonal translation into negative coordinates, scaling and SW <= 2 W1 against an LP reference.",
-        "technique": "property-based testing (Hypothesis): formula oracle + metamorphic relations + inequality against an LP reference",
+                 "diagonal translation into negative coordinates, scaling and SW <= 2 W1 against an independent assignment reference.",
+        "technique": "property-based testing (Hypothesis): formula oracle + metamorphic relations + inequality against an independent assignment reference",
         "note": _NOTE + "Tolerance 5e-6 * sum|coordinates| because directions are float32 in the implementation.",
     },
 })
